@@ -265,10 +265,9 @@ def run(ctx):
             if rr[0]['rel'] > tolrel:
                 ctx.oracle_fail('small-signal-response-differs', '%s %s: the response to a 1e-4 slow-mode perturbation differs from expm(As t) by %.3g of '
                                 'the perturbation size at h=1/120' % (spec['case'], spec['method'], rr[0]['rel']), spec)
-            need2 = 1.5
-            if rr[0]['rel'] > 1e-3 and rr[0]['rel'] / max(rr[1]['rel'], 1e-300) < need2:
-                ctx.oracle_fail('small-signal-not-converging', '%s: error does not shrink when the step is halved (%.3g -> %.3g)'
-                                % (spec['case'], rr[0]['rel'], rr[1]['rel']), spec)
+            if rr[1]['rel'] > tolrel:
+                ctx.oracle_fail('small-signal-response-differs', '%s %s: the response to a 1e-4 slow-mode perturbation differs from expm(As t) by %.3g of '
+                                'the perturbation size at h=1/240' % (spec['case'], spec['method'], rr[1]['rel']), spec)
     ctx.cov['smib_error_ratio_h_over_h4'] = {k: [round(x, 2) for x in v[:12]] for k, v in worst_ratio.items()}
 
 
